@@ -1,12 +1,6 @@
 #![allow(non_snake_case)]
-mod bbs;
-mod engine;
-mod gen;
-mod props;
-mod refcheck;
-mod refimpl;
-
-use engine::*;
+use zkverif::engine::*;
+use zkverif::{props, refcheck};
 use serde_json::Value;
 
 type RunFn = fn(&Ctx, &Report) -> Meta;
@@ -22,6 +16,7 @@ fn registry() -> Vec<(&'static str, RunFn, ReplayFn, u64)> {
         ("C05", props::c05::run, props::c05::replay, 7200),
         ("C06", props::c06::run, props::c06::replay, 7200),
         ("C07", props::c07::run, props::c07::replay, 7200),
+        ("C08", props::c08::run, props::c08::replay, 10800),
     ]
 }
 
